@@ -82,8 +82,10 @@ def placements(parent):
 
 def cases(tier, seed):
     quick = tier == "quick"
-    for fam in ("elec", "eph"):
+    for fam in ("elec", "eph", "two"):
         for N in ((2, 3, 4) if quick else (2, 3, 4, 5)):
+            if fam == "two" and N > (3 if quick else 4):
+                continue       # two-component labels: the label bookkeeping is what differs, small trees suffice
             for parent in plane_trees(N):
                 for m, groups, vname in placements(parent):
                     if m > 4 or m < 2:
@@ -94,8 +96,10 @@ def cases(tier, seed):
                         continue
                     secs = sectors(fam, m)
                     for isec, sec in enumerate(secs):
-                        if isec == 0 and fam == "elec":
+                        if isec == 0 and fam in ("elec", "two"):
                             continue       # empty sector: nothing moves
+                        if fam == "two" and sec not in ([1, 1], [1, 0], [2, 1]):
+                            continue
                         if quick and isec not in (1, 2):
                             continue
                         for scheme in SCHEMES:
